@@ -976,8 +976,9 @@ def run(ctx):
             yield graph_jobs(dags[k:k + 8192], nd, modes, 'dag')
         if wide:
             for k in range(0, 1 << 16, 8192):
-                yield graph_jobs(range(k, k + 8192), 4, modes + ['grid', 'andor'], 'g')
+                yield graph_jobs(range(k, k + 8192), 4, modes + ['grid'], 'g')
                 yield graph_hist_jobs(range(k, k + 8192), 4, 'g')
+            yield graph_jobs([int(x) for x in canonical_reps(4)], 4, ['andor'], 'g')
             reps5 = [int(x) for x in canonical_reps(5)]
             res.count('graphs5_up_to_isomorphism', len(reps5))
             for k in range(0, len(reps5), 8192):
